@@ -165,8 +165,11 @@ def make_group(rng, kind_bias=None, variant=None):
     variant 'lines': multi-line values with LF / CRLF / bare CR line ends in element texts, text nodes, attribute
     values and in the text handed over for wrapping (config `text`: string / list) (c12_classes, class 3);
     variant 'attrs': class / id shorthands in every multiplicity under the syntax presets and user-given
-    markup.attributes / markup.valuePrefix maps (c12_classes, class 4)."""
-    level = 'depth' if rng.random() < (0.5 if variant in ('case', 'lines') else 0.35) else 'c12'
+    markup.attributes / markup.valuePrefix maps (c12_classes, class 4);
+    variant 'empty': empty values written explicitly (`{}`, `p{}`, `[title=""]`) in every position and abbreviations
+    cut short as an as-you-type expansion sees them (c12_classes, class 6); one of the two cosmetic runs has
+    formatting off, the other on, in most draws."""
+    level = 'depth' if rng.random() < (0.5 if variant in ('case', 'lines', 'empty') else 0.35) else 'c12'
     listed = False
     cased_names = None
     if variant == 'fields':
@@ -176,6 +179,8 @@ def make_group(rng, kind_bias=None, variant=None):
         abbr = g.render(cc.rand_lines_stmt(rng, level))
     elif variant == 'attrs':
         abbr = g.render(cc.rand_shorthand_stmt(rng, level))
+    elif variant == 'empty':
+        abbr = cc.rand_unfinished_stmt_abbr(rng, level)
     elif variant == 'case':
         st = cc.rand_cased_stmt(rng, level)
         abbr = g.render(st)
@@ -197,6 +202,9 @@ def make_group(rng, kind_bias=None, variant=None):
         base['options'].update(cc.rand_attr_maps(rng, base['syntax']))      # not cosmetic: the same in every run
     k1 = fu.rand_cosmetic(rng, names)
     k2 = fu.rand_cosmetic(rng, names)
+    if variant == 'empty' and rng.random() < 0.7:
+        # the pair the statement names first: format on / off
+        k1['output.format'], k2['output.format'] = rng.choice([(True, False), (False, True)])
     cfgs = {'a': fu.with_options(base, k1), 'b': fu.with_options(base, k2)}
     checks = [('cosmetic', 'a', 'b')]
     if level == 'depth':
@@ -460,6 +468,31 @@ def add_shorthand_groups(ctx, rng, groups):
     ctx.cov['shorthand_attribute_groups'] = {'sweep': n_sw, 'random': n}
 
 
+def add_empty_value_groups(ctx, rng, groups):
+    """Class 6 of c12_classes: empty values written explicitly and abbreviations cut short.  Deterministic sweeps
+    (every empty unit x every host; every prefix of the typed abbreviations), each with the pair format off / format on
+    (cosmetic) and the depth check on the formatted run, then random statements."""
+    quick = ctx.tier == 'quick'
+    n_sw = n_pre = 0
+    sweep = [(a, o, 'value') for a, o in cc.empty_value_sweep()]
+    typed = [(a, o, 'typed') for a, o in cc.typed_prefix_sweep(stride=2 if quick else 1)]
+    for k, (abbr, opts, what) in enumerate(sweep + typed):
+        syn = fu.HTML_SYNTAXES[k % len(fu.HTML_SYNTAXES)]
+        a = {'syntax': syn, 'options': {'output.format': False, 'output.selfClosingStyle': 'xhtml'}}
+        d = {'syntax': syn, 'options': dict(opts, **{'output.format': True, 'output.formatSkip': [],
+                                                     'output.selfClosingStyle': 'xhtml'})}
+        groups.append({'abbr': abbr, 'cfgs': {'a': a, 'd': d}, 'checks': [('cosmetic', 'a', 'd'), ('depth', 'd', None)],
+                       'variant': 'empty'})
+        if what == 'value':
+            n_sw += 1
+        else:
+            n_pre += 1
+    n = 120 if quick else 1500
+    for _ in range(n):
+        groups.append(make_group(rng, variant='empty'))
+    ctx.cov['empty_value_groups'] = {'sweep': n_sw, 'typed_prefixes': n_pre, 'random': n}
+
+
 FIELD_IN_VALUE_RE = re.compile(r'\$\{\d+(?::[^{}]*)?\}')
 
 
@@ -494,6 +527,15 @@ def cover_new_classes(ctx, kind, gr, cfg_a, ra):
             ctx.cover('C12:shorthand-attributes-user-valuePrefix')
         if 'markup.attributes' in o:
             ctx.cover('C12:shorthand-attributes-user-attribute-names')
+    if gr.get('variant') == 'empty' and kind in ('cosmetic', 'depth'):
+        ctx.cover('C12:empty-or-cut-short-%s-%s' % (kind, 'expands' if ra[0] == 'ok' else 'does-not-parse'))
+        if ra[0] == 'ok':
+            for nm in cc.empty_class_marks(abbr):
+                ctx.cover('C12:empty-or-cut-short-%s-%s' % (kind, nm))
+            if kind == 'cosmetic':
+                oa, ob = co.in_force(cfg_a), co.in_force(gr['cfgs'][[c for c in gr['checks'] if c[0] == 'cosmetic'][0][2]])
+                if bool(oa['output.format']) != bool(ob['output.format']):
+                    ctx.cover('C12:empty-or-cut-short-cosmetic-format-on-vs-off')
     if gr.get('variant') == 'case':
         if kind == 'depth' and ra[0] == 'ok':
             o = co.in_force(cfg_a)
@@ -608,16 +650,36 @@ def render_sequence(abbr, cfgs):
         except Exception as e:  # noqa
             return ('err', type(e).__name__)
         outs, fresh = [], []
+
+        def attempt(f):
+            # a step that raises is recorded as ('raised', text) in its place, so that the oracle knows WHICH option
+            # set raised and which did not
+            try:
+                return f()
+            except Hang:
+                raise
+            except Exception as e:  # noqa
+                return ('raised', '%s: %s' % (type(e).__name__, e))
         for c in cfgs:
-            outs.append(stringify(tree, Config(copy.deepcopy(c))))
-            fresh.append(expand(abbr, copy.deepcopy(c)))
+            outs.append(attempt(lambda: stringify(tree, Config(copy.deepcopy(c)))))
+            fresh.append(attempt(lambda: expand(abbr, copy.deepcopy(c))))
     return ('ok', outs, fresh)
 
 
 def oracle_sequence(cfgs, outs, fresh):
     """The first sentence of the statement on the renderings of one tree: the configurations differ in cosmetic
     options only, so every rendering has the content of the first one -- and of the one-shot expansion under the
-    same configuration.  Returns (step, text) or None."""
+    same configuration.  The abbreviation parsed, so a rendering that raises is a failure; when another option set of
+    the sequence renders the same tree, the sequence up to both is reported (a cosmetic option decides whether the
+    tags come out at all).  Returns (step, text) or None."""
+    for i in range(len(outs)):
+        for what, r in (('rendering', outs[i]), ('one-shot expansion', fresh[i])):
+            if isinstance(r, tuple):
+                j = next((j for j in range(len(outs)) if not isinstance(outs[j], tuple)), None)
+                if j is None:
+                    return i, 'parse succeeded, %s %d raised %s' % (what, i, r[1])
+                return max(i, j), ('parse succeeded, %s %d (options %s) raised %s while rendering %d of the same tree (options %s) '
+                                   'gives %r' % (what, i, canon_cfg(cfgs[i]), r[1], j, canon_cfg(cfgs[j]), outs[j][:120]))
     for i in range(len(outs)):
         if i:
             bad = oracle_cosmetic(outs[0], outs[i])
@@ -635,8 +697,10 @@ def rand_sequence_case(rng):
     multi-line values, document snippets) and 2-4 configurations over ONE non-cosmetic base (syntax, comment options,
     cases, quotes, user attribute maps, wrap text) that differ in cosmetic options only."""
     k = rng.random()
-    if k < 0.4:
+    if k < 0.3:
         abbr = g.render(cc.rand_shorthand_stmt(rng))
+    elif k < 0.4:
+        abbr = cc.rand_unfinished_stmt_abbr(rng, 'c12')
     elif k < 0.55:
         abbr = cc.rand_field_abbr(rng)
     elif k < 0.7:
@@ -672,7 +736,8 @@ def tree_reuse_sequences(ctx):
     # rotated so that every set is first, second, ... once
     fixed = list(cc.shorthand_sweep())[::3 if quick else 1] + [
         'xsl:variable[select]>a', 'vare>x', 'xsl:with-param[select=x]{t}', 'ul>li.item$*2>a{t$}', '!', 'a+img+input[disabled.]',
-        'p{a ${1} b}>em', 'div>p{one\rtwo}', 'label>input', 'div#i.c>p.k', 'table>.row>.col', 'bq>{t}']
+        'p{a ${1} b}>em', 'div>p{one\rtwo}', 'label>input', 'div#i.c>p.k', 'table>.row>.col', 'bq>{t}',
+        'div>{}', 'ul>li+{', 'p+{}+span', 'div>p{}+{}*2', 'section>div>(', 'div>p[title=""]>{']
     for k, abbr in enumerate(fixed):
         syn = fu.HTML_SYNTAXES[k % len(fu.HTML_SYNTAXES)] if k % 2 else ['jsx', 'vue', 'xsl'][k % 3]
         base = {'syntax': syn, 'options': {}}
@@ -770,6 +835,17 @@ def run(ctx):
         'Shorthand attributes (class 4): `.c`, `..c` (multiple), `.a..b`, `#i`, `##i`, implicit names, class names that '
         'are / are not property keys, under the documented jsx / vue presets and under user-given markup.attributes / '
         'markup.valuePrefix maps with plain and starred keys in every syntax (sweep + random, compared with the model). '
+        'Empty values and abbreviations cut short (class 6): a closing delimiter directly after the opening one -- the '
+        'empty text node `{}`, `p{}`, `p[]`, `[title=""]`, `[on={}]`, repeated, with children -- in every position '
+        '(only / first / last / middle child, top level, in a group, next to a text node or another empty one, below '
+        'inline and block elements): 12 units x 23 hosts; and every prefix of 16 typed abbreviations (as-you-type: cut '
+        'directly after `{` `[` `(`, after an operator, inside a text or a name; in the quick tier every second prefix '
+        'that does not end in an opening delimiter or operator). Each with the pair format off / format on under rotating '
+        'indent / newline / baseIndent / inlineBreak / formatLeafNode / formatForce values (cosmetic oracle: both runs '
+        'fail to parse alike or both expand with the same content) and the depth oracle on the formatted run (a line '
+        'holding only the indentation of an empty text node counts like any other line); plus random statements with '
+        'empty values put in, half of them cut short (70% of the cuts after an opening delimiter / operator), 70% of '
+        'their cosmetic pairs with format on vs off; compared with the model like every other group. '
         'Call sequences (class 5): ONE tree from emmet.markup.parse rendered by emmet.markup.stringify under 2-5 '
         'configurations that differ in cosmetic options only (abbreviations of every class above x random non-cosmetic '
         'base incl. user attribute maps; fixed part: shorthand sweep, xsl, snippets, fields, every option set in every '
@@ -845,6 +921,7 @@ def run(ctx):
     add_name_case_groups(ctx, rng, groups)
     add_line_separator_groups(ctx, rng, groups)
     add_shorthand_groups(ctx, rng, groups)
+    add_empty_value_groups(ctx, rng, groups)
     cases = []
     index = {}
     for gi, gr in enumerate(groups):
